@@ -601,8 +601,7 @@ def summarize_rare_counts(
     for namespace_tuple, count in term_counter.items():
         namespace, value = namespace_tuple
         out_df_rows.append([namespace, value, count])
-    out_df: pd.DataFrame = pd.DataFrame(out_df_rows)
-    out_df.columns = ['Namespace', 'value', 'Count']
+    out_df: pd.DataFrame = pd.DataFrame(out_df_rows, columns=['Namespace', 'value', 'Count'])
     out_df.to_csv(
         os.path.join(args.output_folder, 'rare_values.tsv'), sep='\t', index=False,
     )
@@ -630,7 +629,7 @@ def summarize_rare_counts(
             },
         )
 
-    final_df: pd.DataFrame = pd.DataFrame(final_df_rows)
+    final_df: pd.DataFrame = pd.DataFrame(final_df_rows, columns=['rare_proportion', 'feature_type', 'feature_name'])
     final_df = final_df.sort_values(by=['rare_proportion'])
     logging.info(
         f'Wrote feature sparsity summary to {args.output_folder}/feature_sparsity_summary.tsv',
